@@ -13,6 +13,7 @@ import (
 	"io"
 	"net/http"
 	"net/http/httptest"
+	"net/url"
 	"strings"
 	"sync"
 	"sync/atomic"
@@ -364,6 +365,7 @@ type Req struct {
 	Cid      cid.Cid
 	Path     string
 	Prefixed bool // request path carries the /ipni/v1/ad prefix
+	Mounted  bool // request path carries the publisher's mount prefix
 	N        int  // occurrence number of this (kind, cid), from 0
 	Status   int
 	Fault    string
@@ -423,6 +425,9 @@ type Pub struct {
 	Discovery bool
 	// ExtraHosts are further host:port names served by the same handler.
 	ExtraHosts []string
+	// Mount: URL path prefix (without slashes at the ends) under which the
+	// publisher is served; "" = at the root of its host.
+	Mount string
 	// Script decides the fault for a request (nil = none).
 	Script func(r *Req) *Fault
 	// Gate, when set, is called for every request before it is answered
@@ -449,7 +454,14 @@ func (p *Pub) AddHost(hostport string) {
 // Addr returns the publisher's HTTP multiaddr.
 func (p *Pub) Addr() multiaddr.Multiaddr {
 	host := strings.Split(p.Host, ":")
-	return multiaddr.StringCast(fmt.Sprintf("/dns4/%s/tcp/%s/http", host[0], host[1]))
+	return multiaddr.StringCast(fmt.Sprintf("/dns4/%s/tcp/%s/http", host[0], host[1]) + p.mountSuffix())
+}
+
+func (p *Pub) mountSuffix() string {
+	if p.Mount == "" {
+		return ""
+	}
+	return "/http-path/" + url.PathEscape(p.Mount)
 }
 
 // AddrInfo returns the peer.AddrInfo a caller would pass to the subscriber.
@@ -457,7 +469,7 @@ func (p *Pub) AddrInfo() peer.AddrInfo {
 	ai := peer.AddrInfo{ID: p.Ident.ID, Addrs: []multiaddr.Multiaddr{p.Addr()}}
 	for _, h := range p.ExtraHosts {
 		hp := strings.Split(h, ":")
-		ai.Addrs = append(ai.Addrs, multiaddr.StringCast(fmt.Sprintf("/dns4/%s/tcp/%s/http", hp[0], hp[1])))
+		ai.Addrs = append(ai.Addrs, multiaddr.StringCast(fmt.Sprintf("/dns4/%s/tcp/%s/http", hp[0], hp[1])+p.mountSuffix()))
 	}
 	return ai
 }
@@ -494,6 +506,10 @@ func (p *Pub) ServeHTTP(w http.ResponseWriter, r *http.Request) {
 	case pth == "/.well-known/libp2p":
 		req.Kind = "wk-legacy"
 	default:
+		if p.Mount != "" && strings.HasPrefix(pth, "/"+p.Mount+"/") {
+			req.Mounted = true
+			pth = strings.TrimPrefix(pth, "/"+p.Mount)
+		}
 		rest := pth
 		if strings.HasPrefix(pth, "/ipni/v1/ad/") {
 			req.Prefixed = true
@@ -695,6 +711,16 @@ func (w *World) AddPub(id *fixture.Identity, discovery bool, opts ...ipnisync.Op
 	p.Publisher = pub
 	p.stop = w.Net.Serve(p.Host, p)
 	w.Pubs = append(w.Pubs, p)
+	return p
+}
+
+// AddMountedPub adds a plain-HTTP publisher (no discovery) that is served
+// under a URL path prefix of its host ("http://host/<mount>/ipni/v1/ad/..."),
+// as when the Publisher is a handler of somebody else's server; its address
+// carries the prefix as an http-path component.
+func (w *World) AddMountedPub(id *fixture.Identity, mount string, opts ...ipnisync.Option) *Pub {
+	p := w.AddPub(id, false, append([]ipnisync.Option{ipnisync.WithHandlerPath(mount)}, opts...)...)
+	p.Mount = strings.Trim(mount, "/")
 	return p
 }
 
